@@ -878,3 +878,154 @@ PROPS["C19"] = {
                     "the model takes the updateBlockBloom argument of each call site from the regenerated facts (fact_C19_all_sites_pass_log_index)",
                     "ERC20-born conversions (convertCoinToEvmBornERC20) are covered by the facts and the theorem, not yet by the generator"],
 }
+
+
+# ------------------------------------------------------------------------------------------------ C05 / C07 evm transactions
+E12 = 10 ** 12
+
+
+def parse_evmtx_obs(ob):
+    a = ob.split()
+    st = {"acct": {}, "C": 0, "S": 0}
+    for it in plist(sec(a, "A")):
+        k, q, b = it.split(":")
+        st["acct"][k] = (int(q), int(b))
+    st["C"] = int(sec(a, "C"))
+    st["S"] = int(sec(a, "S"))
+    return a[0], st
+
+
+def parse_evm_msgs(s):
+    out = []
+    for it in plist(s):
+        f = it.split("/")
+        out.append(dict(sender=f[0], nonce=int(f[1]), L=int(f[2]), tip=None if f[3] == "-" else int(f[3]), price=int(f[4]), value=int(f[5]),
+                        sig=f[6] == "1", kind=f[7], U=int(f[8]), to=f[9]))
+    return out
+
+
+def eff_price(m):
+    if m["tip"] is None:
+        return max(E12, m["price"])
+    return max(E12, min(m["tip"] + E12, m["price"]))
+
+
+def oracle_c07(run, ops, impl):
+    out = []
+    st = None
+    executed = set()
+    for i, (op, ob) in enumerate(zip(ops, impl)):
+        a = op.split()
+        if ob.startswith("panic"):
+            out.append(V("C07:panic", {"line": i + 1}))
+            continue
+        res, new = parse_evmtx_obs(ob)
+        if a[1] == "reset":
+            st = new
+            continue
+        ms = parse_evm_msgs(a[2])
+        cnt = {}
+        for m in ms:
+            cnt[m["sender"]] = cnt.get(m["sender"], 0) + 1
+        if res == "rejected":
+            if new["acct"] != st["acct"]:
+                out.append(V("C07:rejected-tx-changed-state", {"line": i + 1, "op": op[:300]}))
+        else:
+            # admitted: nonces must be the consecutive sequence numbers, signatures valid
+            exp = {k: v[0] for k, v in st["acct"].items()}
+            for m in ms:
+                if not m["sig"]:
+                    out.append(V("C07:tx-with-bad-signature-or-chain-id-admitted", {"line": i + 1, "op": op[:300]}))
+                if m["nonce"] != exp.get(m["sender"], 0):
+                    out.append(V("C07:admitted-with-nonce-not-equal-to-sequence", {"line": i + 1, "sender": m["sender"], "nonce": m["nonce"], "sequence": exp.get(m["sender"], 0)}))
+                exp[m["sender"]] = exp.get(m["sender"], 0) + 1
+            for k, v in new["acct"].items():
+                want = st["acct"].get(k, (0, 0))[0] + cnt.get(k, 0)
+                if v[0] != want:
+                    out.append(V("C07:sequence-not-advanced-by-one-per-message", {"line": i + 1, "account": k, "before": st["acct"].get(k, (0, 0))[0], "after": v[0],
+                                                                                     "messages": cnt.get(k, 0), "result": res}))
+            if res == "ok":
+                for m in ms:
+                    key = (m["sender"], m["nonce"])
+                    if key in executed:
+                        out.append(V("C07:signed-tx-took-effect-twice", {"line": i + 1, "sender": m["sender"], "nonce": m["nonce"]}))
+                    executed.add(key)
+        for k, v in new["acct"].items():
+            if v[0] < st["acct"].get(k, (0, 0))[0]:
+                out.append(V("C07:sequence-decreased", {"line": i + 1, "account": k}))
+        st = new
+    return out
+
+
+def oracle_c05(run, ops, impl):
+    out = []
+    st = None
+    for i, (op, ob) in enumerate(zip(ops, impl)):
+        a = op.split()
+        if ob.startswith("panic"):
+            out.append(V("C05:panic", {"line": i + 1}))
+            continue
+        res, new = parse_evmtx_obs(ob)
+        if a[1] == "reset":
+            st = new
+            continue
+        ms = parse_evm_msgs(a[2])
+        tot0 = sum(v[1] for v in st["acct"].values()) + st["C"]
+        tot1 = sum(v[1] for v in new["acct"].values()) + new["C"]
+        if new["S"] > st["S"]:
+            out.append(V("C05:unibi-supply-increased", {"line": i + 1, "before": st["S"], "after": new["S"], "op": op[:300]}))
+        if tot1 != tot0:
+            out.append(V("C05:unibi-not-conserved-among-accounts-and-collector", {"line": i + 1, "before": tot0, "after": tot1, "op": op[:300]}))
+        if len(ms) == 1 and res != "rejected":
+            m = ms[0]
+            p = eff_price(m)
+            paid = st["acct"][m["sender"]][1] - new["acct"][m["sender"]][1]
+            gain = new["C"] - st["C"]
+            moved = 0
+            if res == "ok" and m["kind"] in ("transfer", "create") and m["to"] != "-" and m["to"] != m["sender"]:
+                moved = m["value"] // E12
+            fee_paid = paid - moved
+            if res == "execfailed":
+                F = (m["L"] * p) // E12
+                others = all(new["acct"][k][1] == st["acct"][k][1] for k in new["acct"] if k != m["sender"])
+                if fee_paid != F or gain != F or not others:
+                    out.append(V("C05:failed-tx-changed-more-than-fee-and-nonce", {"line": i + 1, "op": op[:300], "paid": fee_paid, "F": F, "collector_gain": gain}))
+            else:
+                if gain != fee_paid:
+                    out.append(V("C05:collector-gain-differs-from-signer-payment", {"line": i + 1, "op": op[:300], "paid": fee_paid, "collector_gain": gain}))
+                if not (m["U"] * p - E12 < fee_paid * E12 < m["U"] * p + E12) or fee_paid * E12 > m["L"] * p:
+                    out.append(V("C05:net-gas-payment-out-of-bounds", {"line": i + 1, "op": op[:300], "paid": fee_paid, "gasUsed": m["U"], "price": p}))
+                if m["kind"] == "revert":
+                    others = all(new["acct"][k][1] == st["acct"][k][1] for k in new["acct"] if k != m["sender"])
+                    if not others:
+                        out.append(V("C05:reverted-tx-moved-balances", {"line": i + 1, "op": op[:300]}))
+        st = new
+    return out
+
+
+EVMTX_RULE = ("each case is one block on a real NibiruApp driven through BeginBlock / DeliverTx / EndBlock / Commit: 1–4 transactions of "
+              "1–3 signed Ethereum messages (legacy, access-list, dynamic-fee; prices below / at / above the base fee and not multiples of "
+              "10^12 wei; value transfers of whole and fractional unibi, sub-unibi values, calls to a reverting contract and a logger, "
+              "contract creations, gas limits below the intrinsic gas, over-spending) with correct, stale and gapped nonces, exact "
+              "resubmission of earlier signed txs, signatures for another chain id and corrupted signatures; observations after every "
+              "tx: result class, sequence and unibi balance of every involved account, fee collector balance, total unibi supply; "
+              "non-trivial = at least one tx executed")
+
+PROPS["C07"] = {
+    "modules": ["NibiruProofs.C07"],
+    "runs": [{"model": "evmtx", "n_quick": 250, "n_thorough": 4000, "nontrivial": r"^ok A="}],
+    "oracle": oracle_c07,
+    "rule": EVMTX_RULE,
+    "assumptions": ["signature recovery (secp256k1/keccak, London signer) is a parameter: a message carries whether its signature recovers "
+                    "under this chain's id", "an Ethereum-derived account cannot sign Cosmos txs (different key type), so the shared-sequence "
+                    "clause is exercised only through the EVM path", "gas used is taken from the real execution (EVM interpreter is a parameter)"],
+}
+PROPS["C05"] = {
+    "modules": ["NibiruProofs.C05"],
+    "runs": [{"model": "evmtx", "n_quick": 250, "n_thorough": 4000, "nontrivial": r"^ok A="}],
+    "oracle": oracle_c05,
+    "rule": EVMTX_RULE,
+    "assumptions": ["gas used and the outcome kind of each message come from the real execution (EVM interpreter is a parameter)",
+                    "contracts that move value internally, self-destruct or call bank-moving precompiles are not generated yet (they are "
+                    "covered by the StateDB model of C03/C04); the supply is observed on the implementation, not modelled"],
+}
